@@ -1697,3 +1697,67 @@ def ex_BoolOp(self, ctx, e, env):
 
 
 Engine.ex_BoolOp = ex_BoolOp
+
+
+# ---------------------------------------------------------------------------------------------------- spellings of Set.__init__
+def _install_type_comprehension():
+    """`{type(x) for x in xs}` is `set(map(type, xs))`: the same value (TagSet), hence the same obligations."""
+    from . import loops
+
+    orig = loops.eval_comprehension
+
+    def eval_comprehension(engine, ctx, e, env, kind):
+        if kind == "set" and len(e.generators) == 1 and not e.generators[0].ifs and not e.generators[0].is_async:
+            g, elt = e.generators[0], e.elt
+            if isinstance(g.target, ast.Name) and isinstance(elt, ast.Call) and isinstance(elt.func, ast.Name) \
+                    and elt.func.id == "type" and len(elt.args) == 1 and not elt.keywords \
+                    and isinstance(elt.args[0], ast.Name) and elt.args[0].id == g.target.id \
+                    and not env.lookup("type")[0]:
+                it = engine.eval(ctx, g.iter, env)
+                if isinstance(it, Obj) and it.cls.lookup("__iter__") is not None:
+                    it = engine.call_function(ctx, it.cls.lookup("__iter__"), [it], {}, dynamic=True)
+                if isinstance(it, SymSet) and it.elem_sort == V.RefSort:
+                    it = engine.lib.bi_list(ctx, it)
+                if (isinstance(it, SymSeq) and isinstance(it.kind, V.ObjOf)) or (
+                        isinstance(it, (PyList, tuple)) and all(isinstance(x, Obj) for x in (
+                            it.items if isinstance(it, PyList) else it))):
+                    return engine.lib.bi_set(ctx, V.MappedIter(V.Builtin("type"), it))
+        return orig(engine, ctx, e, env, kind)
+
+    loops.eval_comprehension = eval_comprehension
+
+
+_install_type_comprehension()
+
+
+_orig_assign = Engine.assign
+
+
+def assign(self, ctx, target, v, env):
+    # (x,) = S  /  [x] = S  for a set: ValueError unless it has exactly one element
+    if isinstance(target, (ast.Tuple, ast.List)) and len(target.elts) == 1 and not isinstance(target.elts[0], ast.Starred) \
+            and (isinstance(v, TagSet) or (isinstance(v, SymSet) and v.elem_sort == V.RefSort)):
+        seq = self.lib.bi_list(ctx, v)
+        if ctx.decide(seq.length != 1):
+            raise self.lib.raise_ext("ValueError", "unpacking a set whose size is not 1")
+        return self.assign(ctx, target.elts[0], seq.at(ctx, z3.IntVal(0)), env)
+    return _orig_assign(self, ctx, target, v, env)
+
+
+Engine.assign = assign
+
+_orig_bi_next2 = Lib.bi_next
+
+
+def bi_next2(self, ctx, it, *default):
+    if isinstance(it, TagSet) or (isinstance(it, SymSet) and it.elem_sort == V.RefSort):
+        seq = self.bi_list(ctx, it)
+        if ctx.decide(seq.length <= 0):
+            if default:
+                return default[0]
+            raise self.raise_ext("StopIteration")
+        return seq.at(ctx, z3.IntVal(0))
+    return _orig_bi_next2(self, ctx, it, *default)
+
+
+Lib.bi_next = bi_next2
